@@ -130,6 +130,7 @@ def explore_shard(
     mod = importlib.import_module(modname)
     fn = getattr(mod, fname)
     verdicts.TWIN = twin
+    verdicts.UNDER_ENGINE = True
     hints = typing.get_type_hints(fn)
     sig0 = inspect.signature(fn)
     params = [
@@ -230,6 +231,7 @@ def explore_shard(
     res["solver_seconds"] = round(st1["s"] - st0["s"], 3)
     res["wall"] = round(time.time() - t0, 3)
     verdicts.TWIN = False
+    verdicts.UNDER_ENGINE = False
     return res
 
 
